@@ -172,7 +172,7 @@ def cases(tier, seed):
     # arithmetic, and the bin search divides by a float)
     for kind in ("bigint", "fraction"):
         yield {"exact": kind}
-    for names in (["x", "y"], ["x", "y", "x"], ["y", "t"], ["x"]):
+    for names in (["x", "y"], ["x", "y", "x"], ["y", "t"], ["x"], ["x", "x2"], ["x2", "x", "y"]):
         for ed in ("int", "mixed"):
             yield {"twovars": 1, "names": names, "edges": ed}
     for typed in (0, 1):
@@ -662,8 +662,9 @@ def _two_variables(r, obs, lena):
     for nm in names:
         inner = lena.structures.Histogram([0, 5, 10])
         sib = lena.structures.SplitIntoBins(
-            inner, lena.variables.Variable(nm, _ident, latex_name=nm.upper()),
-            copy.deepcopy(edges) if nm != "t" else [0.0, 1, 2.0, 4])
+            inner, lena.variables.Variable("x" if nm == "x2" else nm, _ident,
+                                           latex_name=nm.upper()),
+            copy.deepcopy(edges) if nm not in ("t", "x2") else [0.0, 1.0, 2.0, 4.0])
         for v in (0.5, 1.5, 3.0, 1.2):
             sib.fill(v)
         hists.extend(list(sib.compute()))
@@ -671,7 +672,13 @@ def _two_variables(r, obs, lena):
     for h in hists:
         alone.extend(copy.deepcopy(list(lena.structures.IterateBins().run(
             iter([copy.deepcopy(h)])))))
-    together = list(lena.structures.IterateBins().run(iter(copy.deepcopy(hists))))
+    if len(names) % 2:
+        together = list(lena.structures.IterateBins().run(iter(copy.deepcopy(hists))))
+    else:
+        # the same element object in two runs
+        itb = lena.structures.IterateBins()
+        together = list(itb.run(iter(copy.deepcopy(hists[:1])))) + \
+            list(itb.run(iter(copy.deepcopy(hists[1:]))))
     obs.count("iterate_bins_runs_over_several_histograms")
     ok = len(together) == len(alone)
     diffs = []
